@@ -704,6 +704,12 @@ def acker_of(hist, op):
     view = own[-1]
     leader = op["node"] if view[3] == "Leader" else view[5]
     if leader is None:
+        # the view is sampled every 0.1 s: a node that learnt its leader between the last sample and the call shows it in the next one
+        nxt = [x for x in spans_of(tl, op["node"]) if x[3] is not None and td < x[0] <= td + LOOKAHEAD_S and (x[3] == "Leader" or x[5] is not None)]
+        if nxt:
+            view = nxt[0]
+            leader = op["node"] if view[3] == "Leader" else view[5]
+    if leader is None:
         return "no", "changed", None            # the addressed node knew no leader and still answered with success
     ls = spans_of(tl, leader)
     # the addressed node's own view (term T, leader L) is evidence that L was leader of term T when the view was sampled, even if
